@@ -240,6 +240,10 @@ def run(ck, facts):
                                         src = s2["rv"]["op"].get("move") or s2["rv"]["op"].get("copy")
                                         if src and not src.get("p") and src["l"] in holders:
                                             holders.add(s2["lhs"]["l"])
+                                    elif s2["k"] == "assign" and not s2["lhs"].get("p") and s2["rv"]["k"] == "agg":
+                                        # wrapped on the way (`Ok(taken)` handed back by a helper): dropping the wrapper drops the payload
+                                        if any(((o_.get("move") or o_.get("copy") or {}).get("l") in holders) and not (o_.get("move") or o_.get("copy") or {}).get("p") for o_ in s2["rv"].get("ops") or []):
+                                            holders.add(s2["lhs"]["l"])
                                 t2 = blk2["term"]
                                 if t2["k"] == "drop" and t2["place"]["l"] in holders:
                                     dropped = True
